@@ -293,6 +293,122 @@ class Stack:
             rows.append(row)
         return rows
 
+    # -------------------------------------------------------------- derived stacks
+    def retype(self):
+        """recompute in/out kinds (inner -> outer) from the stored parameters; sets self.ok"""
+        self.ok = True
+        N = self.n
+        cur_in = cur_out = None
+        kinds = [l["kind"] for l in self.layers]
+        for l in reversed(self.layers):
+            k, lvl = l["kind"], l["level"]
+            if k == "array":
+                cur_in, cur_out = ("size_t", 1, False), (self.store, self.m, True)
+            elif k == "identity1":
+                cur_in, cur_out = ("size_t", 1, True), ("size_t", 1, False)
+            elif k == "identity":
+                t = self.real if lvl == "r" else self.idx
+                cur_in, cur_out = (t, N, True), (t, N, False)
+            elif k == "constant":
+                t = self.real if lvl == "r" else self.idx
+                cur_in, cur_out = (t, N, True), (self.store, self.m, False)
+            elif k in ORDER:
+                cur_in = (self.idx, N, True)
+            elif k in INTERP:
+                l["index"] = cur_in[0]
+                l["real"] = self.real
+                if k == "linear":
+                    if cur_out[0] not in REALS:
+                        self.ok = False
+                    cur_out = (cur_out[0], cur_out[1], False)
+                cur_in = (self.real, N, True)
+            elif k == "backup":
+                cur_out = (cur_out[0], cur_out[1], False)
+            elif k == "cast":
+                cur_out = (l["target"], cur_out[1], False)
+            elif k == "deref":
+                cur_out = (cur_out[0], cur_out[1], False)
+            l["in"], l["out"] = cur_in, cur_out
+        self.top_in, self.top_out = self.layers[0]["in"], self.layers[0]["out"]
+        return self
+
+    def variant(self, swap_interp=False, swap_store=False):
+        """the same stack with the other interpolation method and/or the other storage precision"""
+        import copy
+        v = copy.deepcopy(self)
+        if swap_interp:
+            for l in v.layers:
+                if l["kind"] in INTERP:
+                    l["kind"] = "nn" if l["kind"] == "linear" else "linear"
+        if swap_store:
+            v.store = "double" if v.store == "float" else "float"
+        v.retype()
+        # a cast to an integer type below `linear` is ill-kinded
+        for i, l in enumerate(v.layers):
+            if l["kind"] == "linear" and v.layers[i + 1]["out"][0] not in REALS:
+                v.ok = False
+        v.tagnote = ("interp" if swap_interp else "") + ("+store" if swap_store else "")
+        return v
+
+    def has_interp(self):
+        return any(l["kind"] in INTERP for l in self.layers)
+
+    def store_matters(self):
+        return self.layers[-1]["kind"] == "array"
+
+    def io_signature(self):
+        """what the byte stream of a dump looks like, up to the freedoms the format grants (float width of
+        array payloads, untagged layers): two stacks with equal signatures read each other's files"""
+        size = {"float": 4, "double": 8, "int": 4, "unsigned": 4, "size_t": 8, "long": 8}
+        sig = []
+        for l in self.layers:
+            k = l["kind"]
+            if k == "affine":
+                sig.append(("affine", l["in"][1] * (l["in"][1] + 1) * size[l["in"][0]]))
+            elif k == "clamp":
+                sig.append(("clamp", 2 * l["in"][1] * size[l["in"][0]]))
+            elif k == "backup":
+                sig.append(("backup", 2 * l["in"][1] * size[l["in"][0]], l["out"][1] * size[l["out"][0]]))
+            elif k == "strided":
+                sig.append(("strided", l["in"][1]))
+            elif k in ("morton_t", "morton_f"):
+                sig.append(("morton", l["in"][1]))
+            elif k == "hilbert":
+                sig.append(("hilbert", 2))
+            elif k == "array":
+                sig.append(("array", l["out"][1]))
+            elif k == "constant":
+                sig.append(("constant", l["out"][1] * size[l["out"][0]]))
+            elif k in ("identity", "identity1"):
+                sig.append(("identity",))
+        return tuple(sig)
+
+    def fmt_descriptor(self):
+        """for the independent format parser (gen/fmt.py): tagged layers outer -> inner with payload layout"""
+        size = {"float": 4, "double": 8, "int": 4, "unsigned": 4, "size_t": 8, "long": 8}
+        out = []
+        for l in self.layers:
+            k = l["kind"]
+            if k == "affine":
+                out.append({"tag": 0xAB020000, "payload": l["in"][1] * (l["in"][1] + 1) * size[l["in"][0]]})
+            elif k == "clamp":
+                out.append({"tag": 0xAB020002, "payload": 2 * l["in"][1] * size[l["in"][0]]})
+            elif k == "backup":
+                out.append({"tag": 0xAB020001, "payload": 2 * l["in"][1] * size[l["in"][0]] + l["out"][1] * size[l["out"][0]]})
+            elif k == "strided":
+                out.append({"tag": 0xAB020010, "payload": 8 * l["in"][1], "extents": l["ext"]})
+            elif k in ("morton_t", "morton_f"):
+                out.append({"tag": 0xAB020006, "payload": 8 * l["in"][1], "extents": l["ext"]})
+            elif k == "hilbert":
+                out.append({"tag": 0xAB020004, "payload": 16, "extents": l["ext"]})
+            elif k == "array":
+                out.append({"tag": 0xAB010000, "array": True, "m": l["out"][1], "len": l["len"], "width": size[l["out"][0]]})
+            elif k == "constant":
+                out.append({"tag": 0xAB010001, "payload": l["out"][1] * size[l["out"][0]], "leaf": True})
+            elif k in ("identity", "identity1"):
+                out.append({"tag": 0xAB010002, "payload": 0, "leaf": True})
+        return out
+
     # -------------------------------------------------------------- C++ emission
     def depth(self):
         return len(self.layers)
@@ -456,6 +572,14 @@ class Stack:
         L.append("    static const char * type_string() { return %s; }" % cstr(self.layers[0]["cxx"] if d == 1 else self.full_type()))
         L.append("    static auto pack() { return covfie::make_parameter_pack(%s); }" % ", ".join(self.cfg_expr(i) for i in range(d)))
         L.append("    static field_t make() { return field_t(pack()); }")
+        L.append("    static field_t make_via_helper() { return field_t(covfie::make_parameter_pack_for<field_t>(%s)); }" % ", ".join(self.cfg_expr(i) for i in range(d)))
+        reb = [self.backend_chain(i) + ".get_configuration()" for i in range(d - 1)]
+        if self.has_array():
+            reb.append("typename B%d::owning_data_t(%s)" % (d - 1, self.backend_chain(d - 1)))
+        else:
+            reb.append(self.backend_chain(d - 1) + ".get_configuration()")
+        L.append("    // a new field from the configurations the old one reports (and a copy of its innermost storage)")
+        L.append("    static field_t rebuild(const field_t & f) { return field_t(covfie::make_parameter_pack(%s)); }" % ", ".join(reb))
         if self.has_array():
             L.append("    using array_t = B%d;" % (d - 1))
             L.append("    static const typename array_t::owning_data_t & storage(const field_t & f) { return %s; }" % self.backend_chain(d - 1))
@@ -537,7 +661,12 @@ def select(seed, tier, limit=None):
             pool.remove(best)
         rng2.shuffle(pool)
         target = limit or 150
-        chosen += pool[:max(0, target - len(chosen))]
+        # top up, preferring array-backed stacks (constant backends ignore the coordinate they are given)
+        arr = [s for s in pool if s[-1] == "array"]
+        oth = [s for s in pool if s[-1] != "array" and base(s[-1]) != "constant"]
+        room = max(0, target - len(chosen))
+        chosen += arr[:(room * 2) // 3]
+        chosen += oth[:room - min(len(arr), (room * 2) // 3)]
     else:
         chosen = order[:limit] if limit else order
     stacks = []
@@ -581,8 +710,8 @@ static inline int fillval(uint64_t i, uint64_t j, int salt) { return (int)((i * 
 '''
 
 
-def translation_unit(stacks, first_id, driver_include, driver_call):
-    """one TU for a batch of stacks; driver_call is a format string with {Z}"""
+def translation_unit(stacks, first_id, driver_include, driver_call, extra_calls=()):
+    """one TU for a batch of stacks; driver_call is a format string with {Z}; extra_calls are raw statements"""
     parts = [PRELUDE, '#include "%s"' % driver_include]
     ids = []
     for k, st in enumerate(stacks):
@@ -590,7 +719,10 @@ def translation_unit(stacks, first_id, driver_include, driver_call):
         ids.append(first_id + k)
     parts.append("int main(int argc, char ** argv) {\n    vh::init(argc, argv);")
     for i in ids:
-        parts.append("    " + driver_call.format(Z="Z%d" % i))
+        if driver_call:
+            parts.append("    " + driver_call.format(Z="Z%d" % i))
+    for c in extra_calls:
+        parts.append("    " + c)
     parts.append("    return vh::finish();\n}")
     return "\n".join(parts)
 
